@@ -44,7 +44,9 @@ RULE = ("probabilistic unambiguous grammars built by the real code: UCFG.from_CF
         "(families F1-F6 of lib/dsls.py, depth 1-5, forbidden tables, constant slots, n_gram 1-3) and UCFG.from_DFTA of a sharpened "
         "automaton (several start symbols), at most 160 programs; weights are exact dyadic rationals k/2^m summing to 1 at every "
         "non-terminal, in three flavours: as equal as possible (ties everywhere, like uniform()), random, skewed; "
-        "split(pcfg, splits, desired_ratio) for splits in 2..min(8, |L|) and ratios 1.05 / 1.5 / 3.  Observables: termination "
+        "split(pcfg, splits, desired_ratio) for splits in 2..min(8, |L|) and ratios 1.05 / 1.5 / 3; regression corpus (expect_ok): cases "
+        "recorded as rebuilt correctly by the unchanged tree, most with desired ratio 1000 (balance loop not entered, splits 2-9), whose "
+        "fragments must stay correct.  Observables: termination "
         "(and where a run that does not return is), exception class, number of fragments, membership and probability() of every "
         "program of the original language in every fragment, programs() of every fragment, the returned ratio, the groups of "
         "prefix nodes handed to the reconstruction (nodes, order, masses).  Non-trivial = the language has >= 4 programs, every "
